@@ -14,6 +14,7 @@ CONSTANTS
   Funds = 1000
   Fees = {0}
   WithRotate = FALSE
+  WithUpgradeRev = FALSE
   Delay = 0
   LimWhere <- OnlyAown
   LimitSets <- OneLimit
